@@ -1,7 +1,12 @@
 package harness
 
 import (
+	"bytes"
 	"fmt"
+	"golang.org/x/text/language"
+	"seehuhn.de/go/sfnt/opentype/anchor"
+	"seehuhn.de/go/sfnt/opentype/coverage"
+	"seehuhn.de/go/sfnt/opentype/markarray"
 
 	"seehuhn.de/go/postscript/funit"
 	"seehuhn.de/go/sfnt/glyph"
@@ -338,6 +343,84 @@ func c06FlagPairs(r *run.Run, maxLen int) {
 		})
 }
 
+// c06AnchorOrigin: GPOS tables as a file holds them, in which an anchor that is present has the coordinates
+// (0,0), x = 0 or y = 0.  The expected offsets do not come from a structure with that anchor (in the library's
+// structures an anchor at the origin stands for "no anchor", and the reference shaper follows the
+// structures): they are extrapolated from two runs of the reference with the anchor shifted by (1,1) and
+// by (2,2) - the attachment offset is linear in the anchor.
+func c06AnchorOrigin(r *run.Run) {
+	alphabet := []glyph.ID{gen.GA, gen.GM, gen.GN}
+	coords := [][2]int16{{0, 0}, {0, 5}, {5, 0}, {-3, 4}}
+	const mx, my = 0x7A7B, 0x7C7D // marker coordinates, replaced in the encoded table
+	mkList := func(typ int, x, y funit.Int16) gtab.LookupList {
+		if typ == 4 {
+			return gtab.LookupList{gen.MakeLookup(4, gen.Flags[0], []gtab.Subtable{&gtab.Gpos4_1{
+				MarkCov: coverage.Table{gen.GM: 0, gen.GN: 1}, BaseCov: coverage.Table{gen.GA: 0},
+				MarkArray: []markarray.Record{{Class: 0, Table: anchor.Table{X: 10, Y: 20}}, {Class: 1, Table: anchor.Table{X: 0, Y: 0}}},
+				BaseArray: [][]anchor.Table{{{X: x, Y: y}, {X: 260, Y: -50}}}}})}
+		}
+		return gtab.LookupList{gen.MakeLookup(6, gen.Flags[0], []gtab.Subtable{&gtab.Gpos6_1{
+			Mark1Cov: coverage.Table{gen.GN: 0}, Mark2Cov: coverage.Table{gen.GM: 0},
+			Mark1Array: []markarray.Record{{Class: 0, Table: anchor.Table{X: 7, Y: -2}}},
+			Mark2Array: [][]anchor.Table{{{X: x, Y: y}}}}})}
+	}
+	r.Explore(explore.Config{Name: "C06.anchor-origin"},
+		"mark-to-base and mark-to-mark tables as stored in a file whose base / second-mark anchor is present with the coordinates (0,0), (0,5), (5,0) or (-3,4) (written into the encoded bytes), applied to all sequences of <= 3 glyphs over {A, M, N}: the offsets are those of the reference shaper, extrapolated from two runs with the anchor moved by (1,1) and (2,2)",
+		func(c *explore.Ctx) {
+			typ := 4 + 2*c.Choose(2, "lookup type")
+			xy := coords[c.Choose(len(coords), "anchor")]
+			gd, _ := gen.Gdef(1)
+			enc := (&gtab.Info{ScriptList: gtab.ScriptListInfo{language.MustParse("und-Zzzz-x-dflt"): {Required: 0xFFFF, Optional: []gtab.FeatureIndex{0}}},
+				FeatureList: []*gtab.Feature{{Tag: "mark", Lookups: []gtab.LookupIndex{0}}}, LookupList: mkList(typ, mx, my)}).Encode()
+			marker := []byte{0, 1, mx >> 8, mx & 0xFF, my >> 8, my & 0xFF}
+			at := bytes.Index(enc, marker)
+			if at < 0 || bytes.Count(enc, marker) != 1 {
+				explore.Fatal("C06.anchor-origin: the marker anchor occurs %d times in the encoded table", bytes.Count(enc, marker))
+			}
+			enc = append([]byte{}, enc...)
+			copy(enc[at+2:], []byte{byte(uint16(xy[0]) >> 8), byte(xy[0]), byte(uint16(xy[1]) >> 8), byte(xy[1])})
+			info, err := gtab.Read(bytes.NewReader(enc), gtab.TypeGpos)
+			if err != nil || len(info.LookupList) != 1 {
+				c.Fail("C06.apply", "anchor at the origin: read", "a GPOS%d table with an anchor at (%d,%d) is not read: %v", typ, xy[0], xy[1], err)
+				return
+			}
+			desc := fmt.Sprintf("GPOS%d, anchor (%d,%d) present in the file", typ, xy[0], xy[1])
+			c.Sample(func() any { return desc })
+			c.Outcome(desc)
+			l1 := mkList(typ, funit.Int16(xy[0]+1), funit.Int16(xy[1]+1))
+			l2 := mkList(typ, funit.Int16(xy[0]+2), funit.Int16(xy[1]+2))
+			matched := false
+			gen.Sequences(alphabet, 3, func(gids []glyph.ID) bool {
+				r1 := &refshape.Shaper{LL: l1, Gdef: gd}
+				w1 := r1.Apply([]gtab.LookupIndex{0}, mkSeq(gids, true))
+				r2 := &refshape.Shaper{LL: l2, Gdef: gd}
+				w2 := r2.Apply([]gtab.LookupIndex{0}, mkSeq(gids, true))
+				if len(r1.Undefined) > 0 || len(r2.Undefined) > 0 || len(w1) != len(w2) {
+					return true
+				}
+				want := append([]glyph.Info{}, w1...)
+				for i := range want {
+					want[i].XOffset = 2*w1[i].XOffset - w2[i].XOffset
+					want[i].YOffset = 2*w1[i].YOffset - w2[i].YOffset
+					matched = matched || w1[i].XOffset != w2[i].XOffset
+				}
+				got := gtab.NewContext(info.LookupList, gd, []gtab.LookupIndex{0}).Apply(mkSeq(gids, true))
+				if !infosEqual(got, want) {
+					sig := "explicit anchor with a zero coordinate"
+					if xy[0] == 0 && xy[1] == 0 {
+						sig = "explicit anchor at the origin"
+					}
+					c.Fail("C06.apply", sig, "input %s: library gives [%s], the rules give [%s]; %s", gen.SeqName(gids), fmtInfos(got), fmtInfos(want), desc)
+					return false
+				}
+				return true
+			})
+			if matched {
+				c.Nontrivial()
+			}
+		})
+}
+
 func init() {
 	Register("C06", func(r *run.Run) {
 		r.Rule = "lookup lists from the shared generator x ALL input sequences up to a length bound; library result compared with the token-list reference shaper; cases the specification + testcases sections 1-3 do not define are counted, not compared; non-trivial = lookup lists for which at least one compared sequence had a matching rule"
@@ -355,6 +438,7 @@ func init() {
 			maxLen, bound = 6, 4
 		}
 		// cheap parts first; the deviation-bounded nested lists are the largest and take what remains
+		c06AnchorOrigin(r)
 		c06Subtables(r, maxLen-1)
 		c06NestedContext(r, maxLen)
 		c06NestedLigature(r, maxLen+1)
